@@ -126,6 +126,27 @@ fn do_op(g: &mut Box<dyn DynGen>, op: &Op, log: &mut Digest) -> Result<(), Strin
             g.long_jump();
             None
         }),
+        Op::TestTimer => {
+            // the timer test on this instance's own scripted clock; result and state afterwards
+            // must not depend on whether any other JitterRng was calibrated before in this process
+            if g.kind() == Kind::Jitter {
+                let r0 = g.jitter_ref().unwrap().reads();
+                g.jitter_ref().unwrap().set_cap(r0 + 1700);
+                match guard(|| g.jitter().unwrap().test_timer()) {
+                    Ok(r) => {
+                        let code = match r {
+                            Ok(x) => x as u64,
+                            Err(_) => 1000,
+                        };
+                        let used = g.jitter_ref().unwrap().reads() - r0;
+                        Ok(Some(Out::U64((used << 16) | code)))
+                    }
+                    Err(e) => Err(e),
+                }
+            } else {
+                Ok(None)
+            }
+        }
         Op::Fork => match guard(|| g.boxed_clone()) {
             Ok(c) => {
                 *g = c;
@@ -416,7 +437,14 @@ fn gen_inst(rng: &mut Prng) -> Inst {
         let rounds = if rng.chance(1, 3) { None } else { Some(rng.range(1, 4) as u8) };
         let max_ops = if rounds.is_none() { 2 } else { 5 };
         let ops: Vec<Op> = gen_output_ops(rng, Kind::Jitter, max_ops).into_iter().map(|o| if let Op::Fill(n) = o { Op::Fill(n % 17) } else { o }).collect();
-        return Inst { kind: Kind::Jitter, seed: None, clock: Some(gen_plain_clock(rng, 200)), rounds, ops };
+        let mut ops = ops;
+        let mut n_clock = 200;
+        if rng.chance(1, 3) {
+            // calibrate first, as the documented idiom does
+            ops.insert(0, Op::TestTimer);
+            n_clock = 1900;
+        }
+        return Inst { kind: Kind::Jitter, seed: None, clock: Some(gen_plain_clock(rng, n_clock)), rounds, ops };
     }
     let kind = pick_det_kind(rng);
     // seeding routes that go through shared-looking helpers are over-weighted
@@ -648,7 +676,7 @@ impl Scenario for C19 {
     }
 
     fn rule(&self) -> String {
-        "Static: Send and Sync of the 19 deterministic generator types, the 3 cores, JitterRng<fn() -> u64>, evaluated at compile time by inherent-const shadowing. Dynamic, per run: 2..6 generator instances of mixed types (deterministic generators through every seeding route with zero seeds / seed_from_u64(0) over-weighted, duplicates of the same type and seed, JitterRng instances each over its own scripted clock), each with its own history of next_u32/next_u64/fill_bytes/jump/clone, and 1..4 worker threads. The seeded scheduler repeatedly picks (instance, thread): ownership of the instance is MOVED to that OS thread, which performs exactly one operation and hands the baton back (never more than one runnable thread, so the interleaving replays exactly); schedule styles: round robin, uniform, bursts; thread migrations; disturbances between steps (unrelated generators created/seeded/dropped incl. the zero-seed remap and SplitMix64 expansion, block generators run across a refill, JitterRng::new() which touches the process-wide JITTER_ROUNDS cache). The interleaved run executes in its own fresh process; every instance is also run ALONE in its own fresh process, and all instances under sequential and reverse-sequential composition in one further process each; per-instance output digests must be identical in all of them. distinct_nontrivial = distinct (instance, thread) sequences with at least one interleave and one migration (plus one signature per type of the static table).".into()
+        "Static: Send and Sync of the 19 deterministic generator types, the 3 cores, JitterRng<fn() -> u64>, evaluated at compile time by inherent-const shadowing. Dynamic, per run: 2..6 generator instances of mixed types (deterministic generators through every seeding route with zero seeds / seed_from_u64(0) over-weighted, duplicates of the same type and seed, JitterRng instances each over its own scripted clock), each with its own history of next_u32/next_u64/fill_bytes/jump/clone (JitterRng instances sometimes start with test_timer on their own clock), and 1..4 worker threads. The seeded scheduler repeatedly picks (instance, thread): ownership of the instance is MOVED to that OS thread, which performs exactly one operation and hands the baton back (never more than one runnable thread, so the interleaving replays exactly); schedule styles: round robin, uniform, bursts; thread migrations; disturbances between steps (unrelated generators created/seeded/dropped incl. the zero-seed remap and SplitMix64 expansion, block generators run across a refill, JitterRng::new() which touches the process-wide JITTER_ROUNDS cache). The interleaved run executes in its own fresh process; every instance is also run ALONE in its own fresh process, and all instances under sequential and reverse-sequential composition in one further process each; per-instance output digests must be identical in all of them. distinct_nontrivial = distinct (instance, thread) sequences with at least one interleave and one migration (plus one signature per type of the static table).".into()
     }
     fn assumptions(&self) -> Vec<String> {
         vec![
